@@ -12,8 +12,8 @@ from ..fresh import baseline
 
 ID = "C14"
 LEVEL = "exploration"
-RULE = ("Histories of up to 4 prior operations drawn from {construct (optionally sharing page / title / footnote "
-        "/ source / body / column-header OBJECTS with an earlier document), encode, encode expecting ValueError, "
+RULE = ("Histories of up to 4 prior operations drawn from {construct (optionally sharing page / title / subline / footnote "
+        "/ source / page header / page footer / body / column-header OBJECTS with an earlier document), encode, encode expecting ValueError, "
         "encode twice, change a nested setting (rtf_page.nrow) of a live document in place} over a pool of 14 document archetypes (plain, coloured, multi-section with/without "
         "footnote, figure, grouped, grouped non-contiguous, paginated page_by, subline_by, 2- and 3-column tables "
         "that can share components), followed by encoding every live document. Exhaustive: all histories of "
@@ -91,11 +91,19 @@ ARCH = [
     # 18: per-column border vector and one data row per page: in-place border updates would alias the caller's matrix
     {"kind": "table", "page": {"nrow": 2}, "sections": [{"df": _t(2, 3, "b"), "body": {"border_bottom": ["single", "dashed"], "border_top": ["", "dotted"]},
                                                         "headers": [{"text": ["@H0.0", "@H0.1"]}]}]},
+    # 21 / 22: a table narrower than the text area (landscape default; custom col_width) with components whose indents
+    # refer to the table (the RTFSubline default; page header / footer on request)
+    {"kind": "table", "page": {"orientation": "landscape", "nrow": 20}, "sections": [{"df": _t(2, 3, "l"), "body": {}, "headers": "default"}],
+     "title": {"text": ["@T0"]}, "subline": {"text": ["@U0"]}, "page_header": {"text": ["@P0"], "text_indent_reference": "table"}},
+    {"kind": "table", "page": {"col_width": 4.0}, "sections": [{"df": _t(3, 3, "n"), "body": {}, "headers": "default"}],
+     "subline": {"text": ["@U0", "@U1"]}, "page_footer": {"text": ["@Q0"], "text_indent_reference": "table"}},
 ]
 RAISES = {6}
-PLAIN_BODY = {0, 9, 12, 10, 15, 20}         # single tables whose body/header specs reference no columns
-SHARE_SETS = [["page"], ["body"], ["footnote"], ["title"], ["header"], ["page", "footnote", "source", "title"], ["body", "header"]]
-COMPONENT_ARG = {"page": "rtf_page", "title": "rtf_title", "footnote": "rtf_footnote", "source": "rtf_source"}
+PLAIN_BODY = {0, 9, 12, 10, 15, 20, 21, 22}         # single tables whose body/header specs reference no columns
+SHARE_SETS = [["page"], ["body"], ["footnote"], ["title"], ["header"], ["page", "footnote", "source", "title"], ["body", "header"],
+              ["subline"], ["subline", "page_header", "page_footer"]]
+COMPONENT_ARG = {"page": "rtf_page", "title": "rtf_title", "footnote": "rtf_footnote", "source": "rtf_source",
+                 "subline": "rtf_subline", "page_header": "rtf_page_header", "page_footer": "rtf_page_footer"}
 
 
 def effective_recipe(history, upto):
